@@ -299,10 +299,33 @@ func rendezvousAfter(c *ev.Ctx, w *concWorld, a cop, ta ctarget, b cop, tb ctarg
 			fb, ok2 = cb.fidAt(tb.path, b.stateFor(tb), tb.dir)
 		}
 	}
-	if hist != "moved" {
+	if hist != "moved" && hist != "self-rename" {
 		bindB()
 	}
-	if hist == "refused-unlink" && ok1 && ok2 {
+	if hist == "self-rename" && ok1 {
+		// an earlier Trenameat of A's entry onto itself, made through two
+		// different fids of its directory: nothing moved, A's fid and the fid B
+		// binds afterwards must still meet on one path node
+		if ta.path == "/" {
+			return out, false
+		}
+		pf1, okp := ca.fidAt(parentOf(ta.path), 'u', true)
+		pf2, okq := ca.fidAt(parentOf(ta.path), 'u', true)
+		if !okp || !okq {
+			return out, false
+		}
+		rr := ca.s.renameat(pf1, baseOf(ta.path), pf2, baseOf(ta.path))
+		if !rr.OK {
+			hang(c, rr.Out, rr.Dump, "C06:request-never-answered:self-Trenameat", nil)
+			return out, false
+		}
+		if rr.Errno() != 0 {
+			return out, false
+		}
+		ca.s.clunk(pf1)
+		ca.s.clunk(pf2)
+		bindB()
+	} else if hist == "refused-unlink" && ok1 && ok2 {
 		// an earlier Tunlinkat of A's entry that the backend refused: nothing
 		// changed, nothing may stay locked or fenced
 		if ta.path == "/" {
